@@ -22,7 +22,7 @@ NAME = 'ack_camx'
 PROPERTIES = ['C08', 'C09']
 
 FORMATS = ['uamiv', 'lateral_boundary', 'temperature', 'wind', 'height_pressure',
-           'humidity', 'vertical_diffusivity', 'one3d']
+           'humidity', 'vertical_diffusivity', 'one3d', 'cloud_rain', 'landuse']
 SCHEDULES = ['retain', 'close', 'drop', 'drop+collect', 'close2']
 SPECIES = ['O3', 'NO2', 'CO', 'PAR', 'ISOP', 'HNO3', 'PM25_SO4XX', 'N2O5', 'A1B2C3D4E5',
            'OLE', 'NH3', 'X']
@@ -75,6 +75,10 @@ def gen_spec(rng, fmt):
         if fmt == 'lateral_boundary':
             spec['nx'] = max(spec['nx'], 3)
             spec['ny'] = max(spec['ny'], 3)
+    elif fmt == 'landuse':
+        spec['nland'] = rng.choice([11, 26])
+        spec['extra'] = rng.choice([[], [], ['VAR1'], ['LAI', 'TOPO']])
+        spec['nt'] = 1
     else:
         spec['kind'] = fmt
         spec['lstagger'] = rng.choice([0, 1])
@@ -115,6 +119,26 @@ def truth_of(spec):
                 vars_['%s_%s' % (e, s)] = np.asarray(g['edges'][e][:, i], dtype='f4')
                 order.append('%s_%s' % (e, s))
         model = g
+    elif fmt == 'landuse':
+        m = camx.landuse_from_spec(spec)
+        key = 'LUCAT%02d' % m['nland']
+        vars_ = {key: np.asarray(m['FLAND'], dtype='f4')[None]}
+        order = [key]
+        for k, a in m['extra']:
+            vars_[k] = np.asarray(a, dtype='f4')[None]
+            order.append(k)
+        return {'vars': vars_, 'order': order, 'tflag': [], 'etflag': None,
+                'hdr': {'nx': spec['nx'], 'ny': spec['ny']}, 'model': m, 'ordered': True}
+    elif fmt == 'cloud_rain':
+        m = camx.cloud_rain_from_spec(spec)
+        for a in m['fields'].values():
+            _special(a, spec.get('special'))
+        vars_ = {k: np.asarray(v, dtype='f4') for k, v in m['fields'].items()}
+        order = list(camx.CR_VARS)
+        return {'vars': vars_, 'order': order,
+                'tflag': [(d, int(round(h)) * 100) for d, h in m['times']], 'etflag': None,
+                'hdr': {'nx': spec['nx'], 'ny': spec['ny'], 'nz': spec['nz'],
+                        'cldhdr': m['cldhdr'].strip()}, 'model': m, 'ordered': False}
     else:
         m = camx.met_from_spec(spec)
         for a in m['fields'].values():
@@ -151,6 +175,20 @@ def build_source(spec, truth):
     import PseudoNetCDF as pnc
     fmt = spec['fmt']
     f = pnc.PseudoNetCDFFile()
+    if fmt == 'landuse':
+        m = truth['model']
+        f.createDimension('LANDUSE', m['nland'])
+        f.createDimension('ROW', spec['ny'])
+        f.createDimension('COL', spec['nx'])
+        for k in truth['order']:
+            a = truth['vars'][k][0]
+            v = f.createVariable(k, spec.get('srcdtype', 'f'),
+                                 ('LANDUSE', 'ROW', 'COL') if a.ndim == 3 else ('ROW', 'COL'))
+            v.units = 'Fraction' if a.ndim == 3 else ''
+            v.long_name = k.ljust(16)
+            v.var_desc = k.ljust(16)
+            v[...] = a
+        return f
     nt = spec['nt']
     d = f.createDimension('TSTEP', nt)
     d.setunlimited(True)
@@ -219,6 +257,8 @@ def build_source(spec, truth):
         f.ISTAG = np.int32(h['istag'])
     if fmt == 'wind':
         f.LSTAGGER = np.array(h['lstagger'], dtype='>i')
+    if fmt == 'cloud_rain':
+        f.FILEDESC = truth['model']['cldhdr'].ljust(20)[:20]
     return f
 
 
@@ -228,7 +268,7 @@ def windowed_source(spec, truth):
     the wanted window is cut out with sliceDimensions.  The generic slicer
     keeps global attributes (NCOLS, NROWS, NLAYS ...) of the parent."""
     fmt = spec['fmt']
-    if fmt == 'lateral_boundary':
+    if fmt in ('lateral_boundary', 'landuse'):
         return build_source(spec, truth)
     big = dict(spec, nx=spec['nx'] + 2, ny=spec['ny'] + 2, nz=spec['nz'] + 1)
     tb = truth_of(big)
@@ -267,7 +307,12 @@ def canon_from_library(f, fmt):
             etflag = [(int(x[0]), int(x[1])) for x in a[:, 0, :]]
         else:
             vars_[k] = a.astype('f4') if a.dtype != np.dtype('f4') else a
+            if fmt == 'landuse':
+                vars_[k] = vars_[k][None]
             order.append(k)
+    if fmt == 'landuse':
+        return {'vars': vars_, 'order': order, 'tflag': [], 'etflag': None,
+                'hdr': {'nx': len(f.dimensions['COL']), 'ny': len(f.dimensions['ROW'])}}
     hdr = {}
     if fmt in ('uamiv', 'lateral_boundary'):
         m = {'name': 'NAME', 'note': 'NOTE', 'itzon': 'ITZON', 'plon': 'PLON', 'plat': 'PLAT',
@@ -281,6 +326,8 @@ def canon_from_library(f, fmt):
     hdr['nx'] = len(f.dimensions['COL'])
     hdr['ny'] = len(f.dimensions['ROW'])
     hdr['nz'] = len(f.dimensions['LAY'])
+    if fmt == 'cloud_rain':
+        hdr['cldhdr'] = str(getattr(f, 'FILEDESC', '')).strip()
     if fmt == 'wind':
         try:
             hdr['lstagger'] = int(np.asarray(f.LSTAGGER))
@@ -302,6 +349,24 @@ def canon_from_reference(buf, fmt, spec):
             for e in camx.EDGES:
                 vars_['%s_%s' % (e, s)] = np.asarray(g['edges'][e][:, i], dtype='f4')
                 order.append('%s_%s' % (e, s))
+    elif fmt == 'landuse':
+        m = camx.decode_landuse(buf, spec['nx'], spec['ny'])
+        key = 'LUCAT%02d' % m['nland']
+        vars_ = {key: np.asarray(m['FLAND'], dtype='f4')[None]}
+        order = [key]
+        for k, a in m['extra']:
+            vars_[k] = np.asarray(a, dtype='f4')[None]
+            order.append(k)
+        return {'vars': vars_, 'order': order, 'tflag': [], 'etflag': None,
+                'hdr': {'nx': m['nx'], 'ny': m['ny']}}
+    elif fmt == 'cloud_rain':
+        m = camx.decode_cloud_rain(buf)
+        return {'vars': {k: np.asarray(v, dtype='f4') for k, v in m['fields'].items()},
+                'order': list(camx.CR_VARS),
+                'tflag': [(camx.yyyyjjj(d), int(round(h)) * 100) for d, h in m['times']],
+                'etflag': None,
+                'hdr': {'nx': m['nx'], 'ny': m['ny'], 'nz': m['nz'],
+                        'cldhdr': m['cldhdr'].strip()}}
     else:
         m = camx.decode_met(buf, fmt, spec['nx'], spec['ny'])
         names = {'temperature': {'SURF': 'SURFTEMP', 'AIR': 'AIRTEMP'},
@@ -558,7 +623,7 @@ def apply(st, op):
         except BaseException as e:
             raise HarnessError('cannot build source %r: %r' % (spec, e))
         path = w.path(op['file'])
-        if spec.get('stale_output') and o == 'write':
+        if spec.get('stale_output') and o == 'write' and fmt != 'landuse':
             # an older, longer export already sits at the output path
             old = dict(spec, nt=spec['nt'] + 2, window=False, layout='C')
             try:
@@ -705,6 +770,10 @@ def apply(st, op):
             buf, _ = camx.encode_gridded(m)
         elif fmt == 'lateral_boundary':
             buf, _ = camx.encode_boundary(m)
+        elif fmt == 'landuse':
+            buf, _ = camx.encode_landuse(m)
+        elif fmt == 'cloud_rain':
+            buf, _ = camx.encode_cloud_rain(m)
         else:
             buf, _ = camx.encode_met(m)
         p3 = wr['path'] + '.stub'
